@@ -12,6 +12,8 @@ func init() {
 			"(every filesystem step + every 32 KiB chunk of the write path, inserted by cmd/vinstr) of one PUT; for EVERY k in 1..N a child process is SIGKILLed at point k, plus one killed right after it recorded the 200; " +
 			"syskill stream: strace is attached to a waiting child and kills it (inject=<call>:signal=SIGKILL:when=k) at every file-mutating system call of the PUT, independent of the instrumenter; " +
 			"cancellation variant: CloseNotify fires at point k in-process; a NEW server over the same directories is judged (GET, files on disk, /index). " +
+			"trashrace stream: a PUT over an old intact/corrupt copy and a request that trashes that copy (DELETE | trash-list via the real trash worker; trash lifetime 1h | 0) are parked at their yield points and released by schedule " +
+			"(PUT held after k steps while the remover runs j steps, the mirror image, PRNG interleavings; quick = a seed-chosen 1/32 of the grid); A1 is demanded only if the remover had finished before keepstore produced the 200 (event counter, no clock); " +
 			"exhaustive over the kill/cancel points of each scenario run; distinct = distinct (point label, size, nvol, pre-state, acked) tuples",
 		Assume: []string{"durability is claimed against process death only (page cache survives SIGKILL); nothing is asserted about power loss",
 			"yield points are inserted by pattern (os.*, ioutil.*, syscall.*, v.os.*, flock, Close/Readdir); a PUT that meets no point is inconclusive"},
